@@ -100,6 +100,10 @@ pub enum ReplyReq {
         name: String,
         payload: Binary,
         recv: u8,
+        /// SubMsg receiver only: the sub-message was already stamped once by the same builder
+        /// with this payload before it is stamped with `payload`
+        #[serde(default)]
+        pre: Option<Binary>,
     },
     /// hand-made sub-message
     Raw {
@@ -397,6 +401,7 @@ fn build_send<G: Glue>(storage: &dyn Storage, s: &Send) -> StdResult<SubMsg<G::C
             name,
             payload,
             recv,
+            pre,
         } => {
             let (inner, out) = match (recv % 3, built) {
                 (0, b) => {
@@ -419,7 +424,12 @@ fn build_send<G: Glue>(storage: &dyn Storage, s: &Send) -> StdResult<SubMsg<G::C
                             _ => ReplyOn::Always,
                         },
                     };
-                    (j(&sm.msg), G::wrap_submsg(sm, name, payload.as_slice())?)
+                    let inner = j(&sm.msg);
+                    let sm = match pre {
+                        Some(p0) => G::wrap_submsg(sm, name, p0.as_slice())?,
+                        None => sm,
+                    };
+                    (inner, G::wrap_submsg(sm, name, payload.as_slice())?)
                 }
                 (1, Built::Wasm(w)) => {
                     let c: CosmosMsg<G::C> = w.clone().into();
@@ -442,7 +452,7 @@ fn build_send<G: Glue>(storage: &dyn Storage, s: &Send) -> StdResult<SubMsg<G::C
                 G::CID,
                 "submsg",
                 json!({"name": name, "payload": bb::bytes_text(payload.as_slice()), "recv": recv_eff,
-                       "gas_limit": s.gas_limit, "msg": inner}),
+                       "gas_limit": s.gas_limit, "msg": inner, "restamped": pre.is_some()}),
                 j(&out),
             );
             out
